@@ -157,6 +157,21 @@ func derefPtr(t reflect.Type, v reflect.Value) (reflect.Type, reflect.Value, ref
 	return t, v, k
 }
 
+/*
+isNilOperator returns a Boolean value indicative of whether op
+is nil, or is a nil pointer of some type that qualifies for the
+Operator interface signature (calling a method upon which would
+result in a panic).
+*/
+func isNilOperator(op Operator) bool {
+	if op == nil {
+		return true
+	}
+
+	v := valOf(op)
+	return v.Kind() == reflect.Ptr && v.IsNil()
+}
+
 func assertReflect(x any) (at reflect.Type, av reflect.Value) {
 	switch tv := x.(type) {
 	case reflect.Value:
